@@ -29,7 +29,7 @@ def mape(y_pred, y_test):
         The MAPE for the given predictions.
 
     """
-    return np.nanmean(100.0 * np.abs(y_test - y_pred.ravel()) / np.abs(y_test).ravel())
+    return np.nanmean(100.0 * np.abs(y_test.ravel() - y_pred.ravel()) / np.abs(y_test).ravel())
 
 
 def bias(y_pred, y_test):
@@ -53,7 +53,7 @@ def bias(y_pred, y_test):
         The mean bias in percent.
 
     """
-    return np.mean(100.0 * y_test - y_pred / y_test)
+    return np.mean(100.0 * (y_pred.ravel() - y_test.ravel()) / y_test.ravel())
 
 
 def quantile_score(y_tau, y_test, taus):
